@@ -2,10 +2,15 @@
 EXTENDS AsyncRunTest
 IntrQuick == {NoIntr, 1, 5}
 IntrAll == {NoIntr, 1, 3, 5, 7}
+IntrFew == {NoIntr, 5}
 FaultsQuick == {Beh("raise", "fail", 0), Beh("raise", "skip", 0), Beh("dfire", None, 2), Beh("dfire", None, 4),
                 Beh("dfail", "err", 2), Beh("never", None, Never)}
 FaultsAll == Behaviours \ {Ret}
 Sd(u, w) == [unit |-> u, what |-> w]
 SidesQuick == {Sd("body", "leave"), Sd("body", "logerr"), Sd("tearDown", "drop"), Sd("tearDown", "chain0")}
 SidesAll == {Sd(u, w) : u \in AllUnits, w \in {"leave", "logerr", "drop", "chain0"}}
+\* failed expectations (C07: "makes the test fail once it has finished") and the user-side flush of logged errors
+SidesUser == {Sd(u, w) : u \in AllUnits, w \in {"expect", "logflush", "flushall"}}
+SidesExpect == {Sd(u, "expect") : u \in AllUnits}
+FaultsFew == {Beh("raise", "fail", 0), Beh("raise", "skip", 0), Beh("dfire", None, 2), Beh("dfail", "err", 2), Beh("never", None, Never)}
 =============================================================================
